@@ -45,8 +45,11 @@ func capitalizeName(name string) string {
 	return name
 }
 
-// _maxPreAlloc bounds what a length merely declared in the input may allocate up front
-const _maxPreAlloc = 1024
+// _maxPreAlloc bounds what a length merely declared in the input may allocate up front (the rest is
+// allocated in doubling steps as the elements arrive). It has to be small: every list of a nested
+// input can declare a large length while holding one element, and 1024 slots for each of them
+// were 16 KiB of allocation per 6 octets of input
+const _maxPreAlloc = 16
 
 func minInt(a, b int) int {
 	if a < b {
